@@ -62,7 +62,7 @@ func vh17StripConsumed(evs []vh02Event) []vh02Event {
 // vh17Socket writes the stream in the given chunks into one end of a socket pair and runs the
 // recv loop on the other end: mode 1 = the *net.UnixConn itself (syscall.Conn: recvmsg path),
 // mode 2 = hidden behind a plain io.Reader (generic path over real socket reads).
-func vh17Socket(o *vhOut, what string, mode int, msize uint32, stream []byte, base []vh02Event, orc []vh02Oracle, chunks []int) {
+func vh17Socket(o *vhOut, what string, mode int, msize uint32, stream []byte, base []vh02Event, orc []vh02Oracle, chunks []int, pause time.Duration) {
 	a, b, err := vh02SocketPair()
 	if err != nil {
 		panic(err)
@@ -78,7 +78,7 @@ func vh17Socket(o *vhOut, what string, mode int, msize uint32, stream []byte, ba
 			}
 			a.Write(stream[off : off+n])
 			off += n
-			time.Sleep(40 * time.Microsecond)
+			time.Sleep(pause)
 		}
 		if off < len(stream) {
 			a.Write(stream[off:])
@@ -194,8 +194,8 @@ func TestVerifC17(t *testing.T) {
 			vh17Scripted(o, "cut", msize, s, base, orc, vh02Cuts(r, len(s)))
 		}
 		if i%2 == 0 {
-			vh17Socket(o, "socket-vec", 1, msize, s, base, orc, vh17Chunks(r, len(s)))
-			vh17Socket(o, "socket-generic", 2, msize, s, base, orc, vh17Chunks(r, len(s)))
+			vh17Socket(o, "socket-vec", 1, msize, s, base, orc, vh17Chunks(r, len(s)), 40*time.Microsecond)
+			vh17Socket(o, "socket-generic", 2, msize, s, base, orc, vh17Chunks(r, len(s)), 40*time.Microsecond)
 		}
 		if i%10 == 0 { // Reads that hand over nothing (0, nil): model comparison only
 			sc := vh02Cuts(r, len(s))
@@ -205,6 +205,34 @@ func TestVerifC17(t *testing.T) {
 				}
 			}
 			vh17Scripted(o, "zero-reads", msize, s, base, orc, sc)
+		}
+	}
+	// 2b. gated writes: one segment carries the header, the whole fixed part and a strict prefix of the
+	// payload (a single recvmsg then crosses the buffer boundary and ends inside the payload)
+	ngate := 12
+	if thorough {
+		ngate = 100
+	}
+	for i := 0; i < ngate; i++ {
+		data := make([]byte, 8+r.Intn(60))
+		r.Read(data)
+		var f []byte
+		fixed := 16
+		if i%2 == 0 {
+			f = vh02Encode(uint16(700+i), &twrite{fid: 1, Offset: uint64(i), Data: data})
+		} else {
+			f = vh02Encode(uint16(700+i), &rread{Data: data})
+			fixed = 4
+		}
+		s := append(append([]byte{}, f...), small[r.Intn(len(small))]...)
+		base := vh17Base(s, msize)
+		orc := vh02Oracles(s, msize)
+		k := 1 + r.Intn(len(data)-1)
+		first := 7 + fixed + k
+		if i%3 == 2 { // header alone first, then fixed part + payload prefix
+			vh17Socket(o, "socket-gated", 1, msize, s, base, orc, []int{7, fixed + k, len(s)}, 3*time.Millisecond)
+		} else {
+			vh17Socket(o, "socket-gated", 1, msize, s, base, orc, []int{first, len(s)}, 3*time.Millisecond)
 		}
 	}
 	// 3. a large payload cut in many places, through the socket (kernel buffers smaller than the frame)
